@@ -21,11 +21,13 @@
         (`sat`) decodes into a value of the generated Go type whose encoding validates against the
         emitted definition, when the emitted node `describes` the Go-chain type (decidable; evaluated
         by the driver on every lab case — the Go chain and the JSON-Schema chain of passes are not
-        modelled here).
+        modelled here);
+    * `C12_values_validate_same_ir_partial`   the same with `describes` PROVED for the document
+        `emitDefs` writes, on the fragment `jsFrag` of one IR read by both jennies.
   The unrestricted statements are FALSE on the current tree; the witnesses below are replayed on the
   real emitter and an independent validator by the check (streams c12-pinned / c12-labpinned / c12-hang).
 -/
-import Cog.Sem.JsonSchemaOutSound
+import Cog.Sem.JsonSchemaOutSelf
 namespace Cog.Sem.JSOut
 open Cog.IR Cog.Sem GoVal
 open Cog.OMap (rget rset)
@@ -173,6 +175,25 @@ theorem C12_values_validate_partial (Sgo Sjs : Schemas) (s : Schema) (fuel : Nat
     ∃ j', goRoundTrip n Sgo pkg name j = .ok j' ∧ jsValidObj D (F + 1) name j' = true := by
   obtain ⟨v, hv, hval⟩ := C12_values_validate_node_partial Sgo D n F hF _ _ j hd hden hsat
   exact ⟨goEncode v, by simp [goRoundTrip, hv, DRes.map, DRes.bind], hval⟩
+
+/-- The same for ONE IR read both by the Go jenny and by the schema jenny, with `describes` PROVED
+    rather than evaluated: on the fragment `jsFrag` (references stay inside the package, object and
+    field names are distinct, no union structs, objects stored under their names) the definitions
+    `emitDefs` writes describe the IR they were written from, so every document of `den` that respects
+    the IR re-encodes to a document valid against `#/definitions/<name>` of the emitted document. -/
+theorem C12_values_validate_same_ir_partial (S : Schemas) (s : Schema)
+    (hself : Schemas.locate S s.pkg = some s) (hf : jsFrag S s = true) (fuel : Nat) (D : Def)
+    (he : emitDefs fuel S s = some D) (n F : Nat) (hF : n ≤ F) (name : String) (hn : localHas s name = true)
+    (j : Json) (hden : den n S (.ref s.pkg name {}) j = true) (hsat : sat n S (.ref s.pkg name {}) j = true) :
+    ∃ j', goRoundTrip n S s.pkg name j = .ok j' ∧ jsValidObj D (F + 1) name j' = true := by
+  have hd : describes D n S (.ref s.pkg name {}) (emitTy (.ref s.pkg name {})) = true :=
+    emit_describes (own_of_emit hself hf he) n _ (by simp [okTy, hn])
+  exact C12_values_validate_partial S S s fuel D he n F hF s.pkg name j (by simpa [emitTy] using hd) hden hsat
+
+example : Schemas.locate exSchemas exSchema.pkg = some exSchema ∧ jsFrag exSchemas exSchema = true := by
+  constructor
+  · rfl
+  · decide +kernel
 
 /-! non-vacuity: the example schema, emitted and described by its own emission; a document with a
     satisfied constraint, an omitted optional member and a recursive member -/
